@@ -509,3 +509,85 @@ Example C01_example_sge_regroup_located :
 Proof. vm_compute. reflexivity. Qed.
 Print Assumptions C01_example_sge_regroup_located.
 (* [/ext-C01S] *)
+
+(* [ext-C01T] ---------------------------------------------------------------------------------------
+   The TREE method (StateDiagram.from_hamiltonian_tree_comparison: from_single_term, then add_single_term per
+   further term = _mark_contained_vertices + _add_hyperedges) is modelled literally in SD/TreeCmp.v (marker
+   fields, dict iteration order `order` of reference_tree.nodes, coefficient handling of the code, not repaired)
+   and tied to the implementation after every call (harness/props/c01t.py). *)
+From PTN Require Import SD.TreeCmp SD.TreeCmpProofs.
+
+(* One term: the TREE diagram is the single-term diagram and denotes the term (all trees, all node orders). *)
+Theorem C01_tree_single_exact : forall (t : rtree) (order : list nat) (tm : pterm), NoDup (ids t) ->
+  from_hamiltonian_tree t order [tm] = Some (single_term 0 t tm) /\
+  forall k : key, (coef (sd_denote t (single_term 0 t tm)) k == coef (ham_denote t [tm]) k)%Q.
+Proof. exact tree_single_exact. Qed.
+Print Assumptions C01_tree_single_exact.
+
+(* The run, by induction over the term list: for every tree, every iteration order of the node dict and every term
+   list, if the decidable step check holds after every add_single_term of the model's run (`tree_ok`: the new state
+   is sd_wf and its normal form equals the normal form of (old denotation + added term)), the diagram TREE returns is
+   well-formed and denotes the Hamiltonian.
+   PARTIAL with respect to "C01_tree_add_term_sound / C01_tree_exact_unit_partial" (for every diagram satisfying a
+   decidable precondition and every not-contained unit-coefficient term the marking algorithm adds exactly that
+   term): that universal soundness of the marking walk is NOT proved; tree_ok is evaluated per explored instance
+   by vm_compute (harness clause I). *)
+Theorem C01_tree_exact_checked_partial : forall (t : rtree) (order : list nat) (H : list pterm) (d : sd), NoDup (ids t) ->
+  tree_ok t order H = true -> from_hamiltonian_tree t order H = Some d ->
+  sd_wf t d = true /\ forall k : key, (coef (sd_denote t d) k == coef (ham_denote t H) k)%Q.
+Proof. exact tree_exact_checked. Qed.
+Print Assumptions C01_tree_exact_checked_partial.
+
+(* The known finding C01-tree-coefficients as a theorem about the literal model: with a non-unit coefficient the
+   model's TREE diagram is well-formed but does NOT denote the Hamiltonian.  (a) one node, 1*A + 2*B; (b) a root with
+   two leaves, 1*X Y Z + 3*X W Z (both leaf walks succeed, the completely contained root hyperedge has another label,
+   the new root hyperedge copies ITS coefficient), for both iteration orders of the leaves. *)
+Theorem C01_tree_coeff_refuted :
+  (exists d, from_hamiltonian_tree wit_tc1_tree [0] wit_tc1_ham = Some d /\ sd_wf wit_tc1_tree d = true /\
+             ~ (forall k : key, (coef (sd_denote wit_tc1_tree d) k == coef (ham_denote wit_tc1_tree wit_tc1_ham) k)%Q)) /\
+  (forall order, In order [[0; 1; 2]; [0; 2; 1]] ->
+   exists d, from_hamiltonian_tree wit_tc2_tree order wit_tc2_ham = Some d /\ sd_wf wit_tc2_tree d = true /\
+             ~ (forall k : key, (coef (sd_denote wit_tc2_tree d) k == coef (ham_denote wit_tc2_tree wit_tc2_ham) k)%Q)).
+Proof. exact (conj tree_coeff_refuted_1 tree_coeff_refuted_2). Qed.
+Print Assumptions C01_tree_coeff_refuted.
+
+(* non-vacuity: 5 nodes (root 0 with children 1, 4; node 1 with leaves 2, 3), 5 pairwise distinct unit-coefficient
+   terms sharing sub-strings below different edges, node dict order 0,4,1,3,2: every step check holds, the diagram is
+   certified and smaller than the BASE diagram (bond dimensions on the edges above 1, 2, 3, 4) *)
+Example C01_example_tree :
+  let t := RNode 0 [RNode 1 [RNode 2 []; RNode 3 []]; RNode 4 []] in
+  let order := [0; 4; 1; 3; 2] in
+  let f := fun (l : list (nat * nat)) (v : nat) => match lookup v l with Some x => x | None => 2 end in
+  let H := [(1%Q, 0, f [(2, 10); (3, 11)]); (1%Q, 0, f [(2, 10); (3, 12)]); (1%Q, 0, f [(2, 10); (3, 11); (4, 13)]);
+            (1%Q, 0, f [(0, 14); (2, 10); (3, 11)]); (1%Q, 0, f [(1, 15); (4, 13)])] in
+  (tree_ok t order H,
+   match from_hamiltonian_tree t order H with
+   | Some d => Some (sd_wf t d, sd_check t H d, map (nverts_on d) [1; 2; 3; 4], map (nverts_on (sd_base t H)) [1; 2; 3; 4])
+   | None => None
+   end,
+   option_map nmarked (tree_final t order H))
+  = (true, Some (true, true, [3; 2; 3; 2], [5; 5; 5; 5]), Some 0).
+Proof. vm_compute. reflexivity. Qed.
+Print Assumptions C01_example_tree.
+
+(* BOUNDED (the bound is in the statement): for EVERY rooted ordered tree with at most 4 nodes (small_trees: all 9 shapes,
+   identifiers in pre-order), EVERY iteration order of the node dict a TreeStructure can have (a node after its parent:
+   topo_orders), and EVERY non-empty list of pairwise different operator strings over two labels per site with unit
+   coefficients (at most 4 terms on <= 3 nodes, at most 3 terms on 4 nodes: small_hams; every order of the terms), the
+   step checks hold, the TREE model returns a diagram, it is well-formed and denotes the Hamiltonian.  59 784 runs of
+   the model, evaluated by vm_compute on one closed boolean and lifted with forallb_forall. *)
+From PTN Require Import SD.TreeCmpBounded.
+Theorem C01_tree_exact_unit_bounded : forall (t : rtree) (order : list nat) (labs : list (list nat)),
+  In t small_trees -> In order (topo_orders t) -> In labs (small_hams t) ->
+  tree_ok t order (map unit_term labs) = true /\
+  exists d, from_hamiltonian_tree t order (map unit_term labs) = Some d /\ sd_wf t d = true /\
+            forall k : key, (coef (sd_denote t d) k == coef (ham_denote t (map unit_term labs)) k)%Q.
+Proof. exact tree_exact_unit_bounded. Qed.
+Print Assumptions C01_tree_exact_unit_bounded.
+Example C01_example_tree_bounded :
+  (map (fun t => (length (topo_orders t), length (small_hams t))) small_trees,
+   existsb (leqb (leqb Nat.eqb) [[0; 1; 1; 0]; [1; 1; 1; 0]; [0; 0; 1; 0]]) (small_hams (RNode 0 [RNode 1 [RNode 2 []]; RNode 3 []])))
+  = ([(1, 4); (1, 64); (1, 2080); (2, 2080); (1, 3616); (2, 3616); (3, 3616); (3, 3616); (6, 3616)], true).
+Proof. vm_compute. reflexivity. Qed.
+Print Assumptions C01_example_tree_bounded.
+(* [/ext-C01T] *)
